@@ -86,6 +86,20 @@ func (c *Ctx) IMMGraph(rule string) []report.Obligation {
 	return c.IMM(rule, ts)
 }
 
+// IMMResolve: resolving env files / label files derives a new project and leaves the receiver as it was, so that
+// a project can be resolved again (against another environment) from the same starting point (C16).
+func (c *Ctx) IMMResolve(rule string) []report.Obligation {
+	var ts []immTarget
+	for _, id := range []string{"types.(Project).WithServicesEnvironmentResolved", "types.(Project).WithServicesLabelsResolved"} {
+		f := c.P.Func(id)
+		if f == nil {
+			return []report.Obligation{anchorViolation(rule, id)}
+		}
+		ts = append(ts, immTarget{Fn: f, Src: 0, CheckRet: true, WhatSrc: "the receiver project"})
+	}
+	return c.IMM(rule, ts)
+}
+
 // IMMRender: the project renderers do not modify the project.
 func (c *Ctx) IMMRender(rule string) []report.Obligation {
 	var ts []immTarget
@@ -105,6 +119,20 @@ func Only(obs []report.Obligation, prefixes ...string) []report.Obligation {
 	for _, o := range obs {
 		for _, p := range prefixes {
 			if len(o.Key) >= len(p) && o.Key[:len(p)] == p || o.Status == report.Violation && len(o.Key) > 7 && o.Key[:7] == "anchor " {
+				out = append(out, o)
+				break
+			}
+		}
+	}
+	return out
+}
+
+// Containing keeps the obligations whose construct contains one of the given texts (anchor failures are kept).
+func Containing(obs []report.Obligation, texts ...string) []report.Obligation {
+	var out []report.Obligation
+	for _, o := range obs {
+		for _, t := range texts {
+			if strings.Contains(o.Key, t) || (o.Status == report.Violation && len(o.Key) > 7 && o.Key[:7] == "anchor ") {
 				out = append(out, o)
 				break
 			}
@@ -144,7 +172,7 @@ func (c *Ctx) INPUTS(rule string) []report.Obligation {
 		fa, ok := ld.X.(*ssa.FieldAddr)
 		return ok && fieldName(fa) == field && fieldOwner(fa) == owner
 	}
-	nEnv, nCfg := 0, 0
+	nEnv, nCfg, nFiles := 0, 0, 0
 	var conv *ssa.Function
 	for _, fn := range c.P.Funcs {
 		if !strings.HasPrefix(c.P.FuncID(fn), "loader.") {
@@ -165,6 +193,53 @@ func (c *Ctx) INPUTS(rule string) []report.Obligation {
 						nEnv++
 						out = append(out, bad(rule+"-env", c.P.FuncID(fn)+" :: deletes from the caller's ConfigDetails.Environment", c.P.InstrPos(in), "the environment map handed in by the caller is written"))
 					}
+				}
+				// elements of the caller's ConfigFiles slice are read, never written (the slice is shared with the caller
+				// although ConfigDetails is passed by value): bytes cached there make a later load of the same
+				// ConfigDetails skip the disk, so a file that has gone missing is no longer reported
+				if ia, ok := in.(*ssa.IndexAddr); ok && isField(ia.X, "ConfigDetails", "ConfigFiles") {
+					if fa, isFA := ia.X.(*ssa.UnOp).X.(*ssa.FieldAddr); isFA {
+						if al, own := fa.X.(*ssa.Alloc); own && al.Heap {
+							continue // a ConfigDetails this function builds itself (LoadConfigFiles)
+						}
+					}
+					nFiles++
+					var wr string
+					var visit func(addr ssa.Value, d int)
+					visit = func(addr ssa.Value, d int) {
+						if d == 0 || wr != "" {
+							return
+						}
+						for _, r := range *addr.Referrers() {
+							switch u := r.(type) {
+							case *ssa.Store:
+								if u.Addr == addr {
+									wr = "store at " + c.P.InstrPos(u)
+								} else {
+									wr = "its address is stored at " + c.P.InstrPos(u)
+								}
+							case *ssa.FieldAddr:
+								visit(u, d-1)
+							case ssa.CallInstruction:
+								cal := u.Common().StaticCallee()
+								if cal == nil || !c.P.InModule(cal) {
+									continue
+								}
+								for i, a := range u.Common().Args {
+									if a == addr && i < len(cal.Params) {
+										sum := c.imm().summary(cal, i)
+										c.imm().solve()
+										if sum.Writes {
+											wr = "passed to " + c.P.FuncID(cal) + ", which writes through it (" + sum.WriteAt + ")"
+										}
+									}
+								}
+							}
+						}
+					}
+					visit(ia, 3)
+					out = append(out, verdict(wr == "", rule+"-files", c.P.FuncID(fn)+" :: an entry of the caller's ConfigFiles is only read", c.P.InstrPos(ia),
+						"the element is loaded, nothing is stored through its address", "an entry of ConfigDetails.ConfigFiles, which shares its array with the caller's slice, is written ("+wr+"): what one load leaves there the next load of the same ConfigDetails takes for given - a compose file removed or changed in between is not read again, and its absence is not reported"))
 				}
 				// uses of ConfigFile.Config
 				if v, ok := in.(ssa.Value); ok && isField(v, "ConfigFile", "Config") {
@@ -224,7 +299,7 @@ func (c *Ctx) INPUTS(rule string) []report.Obligation {
 	} else {
 		out = append(out, bad(rule+"-cfg", "ConfigFile.Config :: converting copy", "", "no use of ConfigFile.Config found that hands it to a converting function: the rule sees nothing"))
 	}
-	out = append(out, report.Obligation{Rule: rule, Key: "inventory", Status: report.Discharged, Why: fmt.Sprintf("%d writes of ConfigDetails.Environment, %d uses of ConfigFile.Config in package loader", nEnv, nCfg)})
+	out = append(out, report.Obligation{Rule: rule, Key: "inventory", Status: report.Discharged, Why: fmt.Sprintf("%d writes of ConfigDetails.Environment, %d uses of ConfigFile.Config, %d element addresses of ConfigDetails.ConfigFiles in package loader", nEnv, nCfg, nFiles)})
 	return out
 }
 
